@@ -225,6 +225,11 @@ def case(args):
         spec = cands.gen_state(rng)
         cands.build_state(a, spec)
         dump = a.dump()
+        stale = cands.derive_roots(dump)
+        if stale:
+            out['violations'].append({'kind': 'monitor', 'signature': '%s:root-column-differs-from-parent-links' % 'c02',
+                                      'detail': 'after a state built by legal requests (creations and moves): %s' % stale[:3],
+                                      'replay': {'type': 'state', 'seed': seed, 'state': spec}})
         if not cands.same_state(spec, dump):
             raise RuntimeError('state built through the API differs from its specification')
         cands.load_model(m, a, dump)
